@@ -138,7 +138,9 @@ int main(int argc, char **argv)
     if(T) for(auto &a : S) for(auto &b : R) { add(a + b); add(a + b + "/"); }
     for(auto &a : Y) for(auto &b : Y) for(auto &c : Y) { add(a + b + c); add(a + b + c + "/"); }
     std::vector<std::string> pats;
-    static const char *SPECS[] = {":", ":i", ":f", ":ii", ":T:F", "::i:f", ":i:ii", ":ii:i", ":i:f:s"};
+    static const char *SPECS[] = {":", ":i", ":f", ":ii", ":T:F", "::i:f", ":i:ii", ":ii:i", ":i:f:s",
+                                  // non-final alternatives of two and three tags that differ from a later one at every position
+                                  ":ii:f", ":if:s:T", ":iii:if:i", ":fi:ii:"};
     for(auto &p : paths) { pats.push_back(p); pats.push_back(p + ":i"); }
     for(auto &a : R) for(const char *sp : SPECS) { if(well_formed(a)) { pats.push_back(a + sp); pats.push_back(a + "/" + sp); } }
     { std::set<std::string> u; std::vector<std::string> q; for(auto &p : pats) if(u.insert(p).second) q.push_back(p); pats.swap(q); }
